@@ -116,3 +116,68 @@ Lemma findxy_one_is_source : forall fsolve w s lon lat xtol,
   snd (findxy_one fsolve w s lon lat xtol) =
   src_findxy_one (sky2image_nodistort w) fsolve (lonlatdiff w) lon lat xtol.
 Proof. intros. reflexivity. Qed.
+
+(* ---------------------------------------------------------------------------------------- *)
+(* round 6: decisions, thresholds and defaults translated from the source                     *)
+(* ---------------------------------------------------------------------------------------- *)
+(* the fold of the longitude into [0,360): comparison operators, thresholds and steps of image2sph (scalar and array
+   code are required to agree by the translator) *)
+Lemma fold360_is_source : forall lon, fold360 lon = src_fold360 lon.
+Proof. intros. reflexivity. Qed.
+
+(* wrap_ra_diff: one pass of each of its two loops, with the source's thresholds and steps *)
+Lemma wrap_is_source : forall d, wrap_ra_diff d = src_wrap_once d.
+Proof.
+  intro d. unfold wrap_ra_diff, src_wrap_once. cbv zeta.
+  repeat match goal with |- context [Rlt_dec ?a ?b] => destruct (Rlt_dec a b) end; try lra; reflexivity.
+Qed.
+
+(* image2sph and sph2image with the source's branch conditions (r > 0, latitude > 0) and the source's fold *)
+Lemma image2sph_decisions_are_source : forall w x y,
+  image2sph w x y =
+  let r := src_image2sph_r x y in
+  let ll := Rotate w (src_image2sph_lon atan2 x y * src_r2d) (src_image2sph_latitude r * src_r2d) true in
+  (src_fold360 (fst ll), snd ll).
+Proof. intros. unfold src_image2sph_latitude. rewrite src_lat_pole. reflexivity. Qed.
+
+Lemma sph2image_decisions_are_source : forall w longitude latitude,
+  sph2image w longitude latitude =
+  let ll := Rotate w longitude latitude false in
+  src_sph2image_sel (fst ll * src_d2r) (snd ll * src_d2r).
+Proof. intros. reflexivity. Qed.
+
+(* ExtractDistortionModel: a header has a distortion model iff either axis has coefficients *)
+Lemma has_distortion_is_source : forall h,
+  (h_proj h <> PSip ->
+     (d_name (extract_distortion h) = DNone <->
+      src_has_distortion (pv_count (fun k => assoc_nat k (h_pv1 h))) (pv_count (fun k => assoc_nat k (h_pv2 h))) = false))
+  /\ (h_proj h = PSip ->
+     (d_name (extract_distortion h) = DNone <->
+      src_has_distortion (sip_count (h_a_order h) (h_sipa h)) (sip_count (h_b_order h) (h_sipb h)) = false)).
+Proof.
+  intro h. unfold extract_distortion, src_has_distortion. split; intro Hp.
+  - destruct (h_proj h); try (exfalso; apply Hp; reflexivity);
+      destruct (Nat.eqb (pv_count (fun k => assoc_nat k (h_pv1 h))) 0), (Nat.eqb (pv_count (fun k => assoc_nat k (h_pv2 h))) 0);
+      cbn; split; intro E; try reflexivity; try discriminate.
+  - rewrite Hp.
+    destruct (Nat.eqb (sip_count (h_a_order h) (h_sipa h)) 0), (Nat.eqb (sip_count (h_b_order h) (h_sipb h)) 0);
+      cbn; split; intro E; try reflexivity; try discriminate.
+Qed.
+
+(* ExtractPVCoeffs: which PV term defaults to which value *)
+Lemma pv_default_is_source : forall table,
+  pv_init table =
+  let z := zeros (S scamp_max_order) (S scamp_max_order) in
+  match assoc_nat src_pv_default_key table with Some (i, j) => mset z i j src_pv_default_value | None => z end.
+Proof. intros. reflexivity. Qed.
+
+(* GetPole, zenithal branch, and the constructor's default angles: the defaults select that branch *)
+Lemma getpole_is_source : forall h,
+  w_rot (mk_wcs h) =
+  rotation_matrix (fst (src_getpole_zenithal (h_crval1 h) (h_crval2 h))) (snd (src_getpole_zenithal (h_crval1 h) (h_crval2 h)))
+                  (h_longpole h).
+Proof. intros. reflexivity. Qed.
+
+Lemma default_angles_are_source :
+  src_default_theta0 = src_zenithal_theta0 /\ src_default_longpole = 180 /\ src_default_latpole = 90.
+Proof. repeat split; reflexivity. Qed.
